@@ -889,6 +889,15 @@ class KeywordSearches:
 
 
     @staticmethod
+    def _hashable(value: Any) -> Any:
+        """Get a stand-in for value that can be used to group by value."""
+        try:
+            hash(value)
+        except TypeError:
+            return "{}:{}".format(type(value).__name__, value)
+        return value
+
+    @staticmethod
     # pylint: disable=locally-disabled,too-many-locals,too-many-branches,too-many-statements
     def distinct(
         data: Any, invert: bool, parameters: List[str], yaml_path: YAMLPath,
@@ -962,6 +971,7 @@ class KeywordSearches:
                     if isinstance(raw_ele, NodeCoords) else raw_ele)
                 if eval_ele is not None and scan_node in eval_ele:
                     eval_val = eval_ele[scan_node]
+                    eval_val = KeywordSearches._hashable(eval_val)
                     if eval_val in seen_values:
                         seen_values[eval_val].append(wrapped_ele)
                     else:
@@ -986,6 +996,7 @@ class KeywordSearches:
                             val, data, key, next_path, next_ancestry,
                             relay_segment)
                         eval_val = val[scan_node]
+                        eval_val = KeywordSearches._hashable(eval_val)
                         if eval_val in seen_values:
                             seen_values[eval_val].append(wrapped_ele)
                         else:
@@ -1019,6 +1030,7 @@ class KeywordSearches:
                     if isinstance(ele, NodeCoords) else NodeCoords(
                         ele, data, idx, next_path, next_ancestry,
                         relay_segment))
+                eval_val = KeywordSearches._hashable(eval_val)
                 if eval_val in seen_values:
                     seen_values[eval_val].append(wrapped_ele)
                 else:
@@ -1026,7 +1038,7 @@ class KeywordSearches:
 
         else:
             # Non-complex data is always unique
-            seen_values[data] = [NodeCoords(
+            seen_values[KeywordSearches._hashable(data)] = [NodeCoords(
                 data, parent, parentref, translated_path, ancestry,
                 relay_segment)]
 
@@ -1104,6 +1116,7 @@ class KeywordSearches:
                     if isinstance(raw_ele, NodeCoords) else raw_ele)
                 if eval_ele is not None and scan_node in eval_ele:
                     eval_val = eval_ele[scan_node]
+                    eval_val = KeywordSearches._hashable(eval_val)
                     if eval_val in seen_values:
                         seen_values[eval_val].append(wrapped_ele)
                     else:
@@ -1128,6 +1141,7 @@ class KeywordSearches:
                             val, data, key, next_path, next_ancestry,
                             relay_segment)
                         eval_val = val[scan_node]
+                        eval_val = KeywordSearches._hashable(eval_val)
                         if eval_val in seen_values:
                             seen_values[eval_val].append(wrapped_ele)
                         else:
@@ -1161,6 +1175,7 @@ class KeywordSearches:
                     if isinstance(ele, NodeCoords) else NodeCoords(
                         ele, data, idx, next_path, next_ancestry,
                         relay_segment))
+                eval_val = KeywordSearches._hashable(eval_val)
                 if eval_val in seen_values:
                     seen_values[eval_val].append(wrapped_ele)
                 else:
@@ -1168,7 +1183,7 @@ class KeywordSearches:
 
         else:
             # Non-complex data is always unique
-            seen_values[data] = [NodeCoords(
+            seen_values[KeywordSearches._hashable(data)] = [NodeCoords(
                 data, parent, parentref, translated_path, ancestry,
                 relay_segment)]
 
